@@ -15,6 +15,7 @@ ExhSpec == {"type"}
 Set12 == {1, 2}
 Set1 == {1}
 Set01 == {0, 1}
+Set0 == {0}
 Set012 == {0, 1, 2}
 Set02 == {0, 2}
 Empty == {}
@@ -39,6 +40,7 @@ SweepCons == {"if", "dol", "where", "forall"}
 KLayout == {"brk", "join", "case", "cmt"}
 KLayout1 == {"brk", "join", "case"}
 KBrk == {"brk"}
+KPar == {"par"}
 InsSmall == {1, 2, 3, 7, 11}
 InsAll == 1..12
 Set123 == {1, 2, 3}
